@@ -3,6 +3,7 @@ package main
 import (
 	"encoding/json"
 	"fmt"
+	"math"
 	"net"
 	"os"
 	"os/exec"
@@ -20,6 +21,7 @@ import (
 //   - a value-change callback that moves the value on (a → b);
 //   - a controller's write arriving while the application's callback for its own SetValue is still running (forced with
 //     channels: the callback has been entered and has not returned).
+//
 // In each the last update to complete decides what the getter returns and what a controller reads.
 func c09Reentrant(c *Ctx) {
 	c09ReentrantModel(c)
@@ -273,22 +275,56 @@ func otherPlatforms(c *Ctx, who string) {
 		platforms = append(platforms, []string{"js/wasm", "GOOS=js", "GOARCH=wasm"})
 	}
 	hl := strings.Split(strings.TrimSpace(host), "\n")
-	// on the host: a whole number inside the declared range, written by a controller, is stored as it is
+	// one line of the probe
+	type pline struct {
+		name, in, out, format string
+		f                     float64
+		isFloat, isInt        bool
+		v, lo, hi             int64 // stored value; declared bounds ∩ range of the format (as far as `bits` go)
+	}
+	parse := func(l string, bits int) (pl pline, ok bool) {
+		var mn, mx, fm string
+		if n, _ := fmt.Sscanf(l, "%s %s -> %s %s %s %s", &pl.name, &pl.in, &pl.out, &mn, &mx, &fm); n != 6 {
+			return pl, false
+		}
+		pl.format = strings.TrimPrefix(fm, "format=")
+		if k, _ := fmt.Sscanf(pl.in, "float64(%g)", &pl.f); k == 1 {
+			pl.isFloat = true
+		}
+		if k, _ := fmt.Sscanf(pl.out, "int(%d)", &pl.v); k == 1 {
+			pl.isInt = true
+		}
+		lo, hi, isIntFormat := formatRange(pl.format)
+		if !isIntFormat {
+			return pl, false
+		}
+		if bits == 32 && hi > math.MaxInt32 {
+			hi = math.MaxInt32
+		}
+		var b int64
+		if k, _ := fmt.Sscanf(mn, "min=%d", &b); k == 1 && b > lo {
+			lo = b
+		}
+		if k, _ := fmt.Sscanf(mx, "max=%d", &b); k == 1 && b < hi {
+			hi = b
+		}
+		pl.lo, pl.hi = lo, hi
+		return pl, true
+	}
+	// on the host: a whole number inside the declared range and the range of the format, written by a controller, is
+	// stored as it is; and whatever is written, what is stored lies within both
 	for _, l := range hl {
-		var name, in, out, mn, mx string
-		if n, _ := fmt.Sscanf(l, "%s %s -> %s %s %s", &name, &in, &out, &mn, &mx); n == 5 && strings.HasPrefix(in, "float64(") {
-			var f float64
-			var lo, hi int64
-			if k, _ := fmt.Sscanf(in, "float64(%g)", &f); k != 1 || f != float64(int64(f)) {
-				continue
-			}
-			nlo, _ := fmt.Sscanf(mn, "min=%d", &lo)
-			nhi, _ := fmt.Sscanf(mx, "max=%d", &hi)
-			if (nlo == 1 && int64(f) < lo) || (nhi == 1 && int64(f) > hi) {
-				continue
-			}
-			if want := fmt.Sprintf("int(%d)", int64(f)); out != want {
-				c.Violate("a whole number inside the range, written by a controller, is not what the application reads", id, map[string]string{"platform": "host", "line": l}, want, out)
+		pl, ok := parse(l, 64)
+		if !ok {
+			continue
+		}
+		if !pl.isInt || pl.v < pl.lo || pl.v > pl.hi {
+			c.Violate(who+": a value outside the declared range or the range of the format is stored", id, map[string]string{"platform": "host", "line": l}, fmt.Sprintf("an int within [%d, %d]", pl.lo, pl.hi), pl.out)
+			break
+		}
+		if pl.isFloat && math.Abs(pl.f) < 1e18 && pl.f == float64(int64(pl.f)) && int64(pl.f) >= pl.lo && int64(pl.f) <= pl.hi {
+			if want := fmt.Sprintf("int(%d)", int64(pl.f)); pl.out != want {
+				c.Violate("a whole number inside the range, written by a controller, is not what the application reads", id, map[string]string{"platform": "host", "line": l}, want, pl.out)
 			}
 		}
 	}
@@ -303,23 +339,21 @@ func otherPlatforms(c *Ctx, who string) {
 			continue
 		}
 		ol := strings.Split(strings.TrimSpace(out), "\n")
-		// on every platform: what is stored lies within the declared bounds
+		bits := 64
+		if p[0] == "386" {
+			bits = 32
+		}
+		// on every platform: what is stored lies within the declared bounds and the range of the format
 		for _, l := range ol {
-			var name, in, outv, mn, mx string
-			if n, _ := fmt.Sscanf(l, "%s %s -> %s %s %s", &name, &in, &outv, &mn, &mx); n == 5 && strings.HasPrefix(outv, "int(") {
-				var v, lo, hi int64
-				fmt.Sscanf(outv, "int(%d)", &v)
-				nlo, _ := fmt.Sscanf(mn, "min=%d", &lo)
-				nhi, _ := fmt.Sscanf(mx, "max=%d", &hi)
-				if (nlo == 1 && v < lo) || (nhi == 1 && v > hi) {
-					c.Violate(who+": a value outside the declared range is stored on a platform the library is built for", id, map[string]string{"platform": p[0], "line": l}, "within "+mn+" "+mx, outv)
-					break
-				}
+			if pl, ok := parse(l, bits); ok && (!pl.isInt || pl.v < pl.lo || pl.v > pl.hi) {
+				c.Violate(who+": a value outside the declared range or the range of the format is stored on a platform the library is built for", id, map[string]string{"platform": p[0], "line": l}, fmt.Sprintf("an int within [%d, %d]", pl.lo, pl.hi), pl.out)
+				break
 			}
 		}
 		for k := range hl {
-			// values beyond the 32-bit int of the platform cannot be equal to the host's; the range rule above covers them
-			if strings.Contains(hl[k], "float64(2.147483648e+09)") || strings.Contains(hl[k], "float64(3e+09)") || strings.Contains(hl[k], "float64(4.294967301e+09)") {
+			// what the 32-bit int of the platform cannot hold cannot be equal to the host's (and an application's uint64 /
+			// uint32 beyond it is not one value on both); the range rule above covers those lines
+			if pl, ok := parse(hl[k], 64); bits == 32 && ok && (pl.v > math.MaxInt32 || pl.v < math.MinInt32 || strings.HasPrefix(pl.in, "uint")) {
 				continue
 			}
 			if k >= len(ol) || ol[k] != hl[k] {
